@@ -80,6 +80,7 @@ def _owner_loop_idiom(fb, ob):
     if any(p.status not in ("return", "loop-pruned", "unreachable") for p in allp):
         return False, "shape"
     it = cnt = ixl = None
+    enumerated = False
     for p in allp:
         for t in loops.trips(p, ob["path"], 0):
             if t.general:
@@ -88,6 +89,8 @@ def _owner_loop_idiom(fb, ob):
                 sv = rel.cstr(v)
                 if re.match(r"^(std::iter::IntoIterator::into_iter\()?std::iter::Iterator::rev\(Range\{start: 0_usize, end: core::slice::<impl \[T\]>::len\(toks\)\}\)\)?$", sv):
                     it = k
+                elif re.match(r"^(std::iter::IntoIterator::into_iter\()?std::iter::Iterator::rev\(std::iter::Iterator::enumerate\(core::slice::<impl \[T\]>::iter\(toks\)\)\)\)?$", sv):
+                    it, enumerated = k, True
                 elif sv == "core::slice::<impl [T]>::len(toks)":
                     ixl = k
                 elif rel.const_int(v) == 0 and isinstance(v, Const) and (v.ty or "").startswith("i"):
@@ -106,6 +109,10 @@ def _owner_loop_idiom(fb, ob):
                 nxt = "std::iter::Iterator::next(%s)" % rel.cstr(t.pre[it])
                 item = ".0(as:Some(%s))" % nxt
                 cont = ("discr(%s)" % nxt, "Some", "None")
+                if enumerated:
+                    # for (idx, tok) in toks.iter().enumerate().rev()
+                    tok_override = ".1(%s)" % item
+                    item = ".0(%s)" % item
             else:
                 if ixl not in t.pre:
                     continue
@@ -113,6 +120,8 @@ def _owner_loop_idiom(fb, ob):
                 item = "binop:Sub(%s, 1_usize)" % I
                 cont = (None, None, None)
             tok = "index(toks, %s)" % item
+            if it is not None and enumerated:
+                tok = tok_override
             kind = sub = None
             eq1 = None
             exited = False
